@@ -12,7 +12,9 @@ Inductive cret :=
 | CRNull       (* return(NULL)                                 *)
 | CRVoid       (* return;  / falling off the end of a void fn  *)
 | CRValue      (* return(<the member's own value>)             *)
-| CRNaNFill    (* void function: the output buffer is filled with NaN before returning (ndsplineeval_gradient) *)
+| CRNaN        (* return(std::numeric_limits<double>::quiet_NaN())  — the leading check of a double-valued wrapper *)
+| CRNaNFill    (* void function: the output buffer is filled with NaN before returning (ndsplineeval_gradient:
+                  gradient_failed(table,evaluates); return; — in the catch blocks and in the leading check) *)
 | CRNone.      (* there is no such statement                    *)
 
 Record glue := mkGlue {
@@ -34,7 +36,7 @@ Record glue := mkGlue {
 
 Definition cret_eqb (a b : cret) : bool :=
   match a, b with
-  | CR0, CR0 | CR1, CR1 | CRNull, CRNull | CRVoid, CRVoid | CRValue, CRValue | CRNaNFill, CRNaNFill | CRNone, CRNone => true
+  | CR0, CR0 | CR1, CR1 | CRNull, CRNull | CRVoid, CRVoid | CRValue, CRValue | CRNaN, CRNaN | CRNaNFill, CRNaNFill | CRNone, CRNone => true
   | _, _ => false
   end.
 
